@@ -59,3 +59,8 @@ CORPUS += [
     M("refresh-gathers-sends", "msmart/device/AC/device.py", "        responses = [\n            resp\n            for cmd in commands\n            for resp in await self._send_command_get_responses(cmd)\n        ]",
       "        import asyncio\n        results = await asyncio.gather(*(self._send_command_get_responses(cmd) for cmd in commands))\n        responses = [resp for result in results for resp in result]"),
 ]
+# round 11: the counter belongs to the connection, not to the handshake
+CORPUS += [
+    M("counter-restarts-with-handshake", L, "        # Flush any existing data from the queue\n        self._flush()\n\n        try:\n            self._handshake_pending = True",
+      "        # Flush any existing data from the queue\n        self._flush()\n        self._packet_id = 0\n\n        try:\n            self._handshake_pending = True"),
+]
